@@ -1,7 +1,7 @@
 (** Proofs about Model/CompilerValidate.v (C11: validation pass and include resolution):
     totality with explicit fuel bounds, and the facts the generators rely on after validation. *)
 From Coq Require Import String ZArith List Bool Lia.
-From FV Require Import Base.Res Model.ParserStrings Model.ParserAst Model.Parser Model.ParserFiles
+From FV Require Import Base.Res Model.ParserStrings Model.ParserAst Model.Parser Model.ParserFsys
      Model.CompilerValidate Proofs.CompilerTotalProofs.
 From FV Require Model.CompilerTotal.
 Import ListNotations.
